@@ -14,6 +14,8 @@ void     w_vss_get_path(uint8_t* pdu, uint64_t kind, uint8_t* dest, uint8_t* out
 void     w_vss_set_data(uint8_t* pdu, uint64_t shape, uint8_t* canon, uint64_t nbytes, uint8_t* typed);
 void     w_vss_get_data(uint8_t* pdu, uint64_t shape, uint8_t* dest, uint8_t* out_canon, uint8_t* meta);
 void     w_vss_get_data2(uint8_t* pdu, uint64_t shape, uint8_t* dest, uint8_t* out_canon, uint8_t* meta, uint64_t prefill);
+void     w_vss_get_path2(uint8_t* pdu, uint64_t kind, uint8_t* dest, uint8_t* out, uint64_t prefill);
+uint64_t w_sa_unpack2(uint8_t* packed, uint64_t data_length, uint64_t req, uint8_t* dest, uint8_t* offs_be, uint8_t* out_lens_be, uint64_t prefill);
 uint64_t w_sa_pack(uint8_t* lens_be, uint8_t* bytes, uint64_t n, uint8_t* packed);
 uint64_t w_sa_pack2(uint8_t* lens_be, uint8_t* bytes, uint64_t n, uint8_t* packed, uint64_t null_for_empty);
 uint64_t w_sa_count(uint8_t* packed, uint64_t data_length);
